@@ -57,9 +57,9 @@ def simStep (cfg : TagCfg) (sim : Sim) (ev : TbEv) : Except Err (Sim × Feedback
 
 /-- lol-html (simulator `sim`, its lexer in tokenizer state `tk`, following the simulator's feedback) and
 the standard's tree builder (state `s`) over the same token sequence: for every token that the tokenizer
-state lets through, the switch lol-html makes and the switch the standard makes. The run ends when the
+state lets through, the token, the switch lol-html makes and the switch the standard makes. The run ends when the
 strict simulator refuses a tag (the rewriter stops with `ParsingAmbiguityError`). -/
-def joint (cfg : TagCfg) (c : Cfg) : Sim → State → TkState → List TbEv → List (Switch × Switch)
+def joint (cfg : TagCfg) (c : Cfg) : Sim → State → TkState → List TbEv → List (Token × Switch × Switch)
   | _, _, _, [] => []
   | sim, s, tk, ev :: evs =>
     if !passes tk ev.tok then joint cfg c sim s tk evs
@@ -68,7 +68,12 @@ def joint (cfg : TagCfg) (c : Cfg) : Sim → State → TkState → List TbEv →
       | .error _ => []
       | .ok (sim', fb) =>
         let o := step c s ev.tok
-        (switchOfFeedback fb, o.sw) :: joint cfg c sim' o.st (nextTk tk ev.tok (switchOfFeedback fb)) evs
+        (ev.tok, switchOfFeedback fb, o.sw) :: joint cfg c sim' o.st (nextTk tk ev.tok (switchOfFeedback fb)) evs
+
+/-- the tokenizer switch the standard attaches to a token (when the tree builder acts on it) -/
+def expSw (c : Cfg) : Token → Switch
+  | .start n _ _ => switchOf c n
+  | _ => .none
 
 /-- no `frameset` start tag after a `select` start tag -/
 def NoFramesetAfterSelect : Bool → List Token → Prop
